@@ -276,6 +276,7 @@ func ReadMappingValues(remainder []byte, map_length Integer) (values *MappingVal
 	var remainder_updated []byte
 	remainder_updated, map_values, errs = parseKeyValuePairs(remainder, map_values, errs)
 	values = &map_values
+	remainder_bytes = remainder_updated
 
 	log.WithFields(logger.Fields{
 		"values_count":     len(map_values),
@@ -500,9 +501,11 @@ func shouldStopParsing(err error) bool {
 
 // hasMinimumBytesForKeyValuePair checks if there are enough bytes for another key-value pair.
 func hasMinimumBytesForKeyValuePair(remainder []byte) bool {
-	// Minimum byte length required: 2 bytes for each string length,
-	// at least 1 byte per string, one byte for =, one byte for ;
-	if len(remainder) < 6 {
+	// A pair is a key String, '=', a value String and ';'. Strings may be empty, so
+	// the shortest pair takes 4 bytes and a pair with a one-character key and an
+	// empty value takes 5. Fewer than 6 bytes are therefore only dismissed when the
+	// pair announced by their length bytes does not fit into them.
+	if len(remainder) < 6 && !announcedPairFits(remainder) {
 		log.WithFields(logger.Fields{
 			"at":     "(Mapping) Values",
 			"reason": "mapping format violation",
@@ -510,6 +513,19 @@ func hasMinimumBytesForKeyValuePair(remainder []byte) bool {
 		return false
 	}
 	return true
+}
+
+// announcedPairFits reports whether the key/value pair whose length bytes start
+// the remainder lies completely inside it.
+func announcedPairFits(remainder []byte) bool {
+	if len(remainder) < 4 {
+		return false
+	}
+	valueLengthIndex := 1 + int(remainder[0]) + 1
+	if valueLengthIndex >= len(remainder) {
+		return false
+	}
+	return valueLengthIndex+1+int(remainder[valueLengthIndex])+1 <= len(remainder)
 }
 
 // parseKeyFromRemainder extracts a key string from the remainder data.
